@@ -3,7 +3,7 @@ import UgoVerif.Proofs.VMCallSiteOps
   Call-site invariant of the frame stack, part 2 (definitions, calculus, primitives, the three
   hand-proved leaves and the non-calling opcodes are in `VMCallSiteOps.lean`).
 
-  * CALL / CALLNAME: `tr_callCompiled`, `tr_callAny`, `tr_execCall`, `tr_execCallName` — the fact
+  * CALL / CALLNAME: `cstr_callCompiled`, `cstr_callAny`, `cstr_execCall`, `cstr_execCallName` — the fact
     "the opcode byte at `vm.ip` of the current function is CALL / CALLNAME, and `G` holds there"
     (`CsInv G (some p)`) is carried from the dispatch to the frame push.
   * `step_inv` / `step_callSites`: one instruction, all 44 opcodes, every path.
@@ -21,9 +21,9 @@ section
 variable {G : Code → Nat → Prop}
 local notation "PA" => CsInv G none
 
-syntax "tr_prim" : tactic
-macro_rules | `(tactic| tr_prim) => `(tactic| exact tr_callTail _ _ _ _ _)
-macro_rules | `(tactic| tr_prim) => `(tactic| keeps_hyp)
+syntax "cs_prim" : tactic
+macro_rules | `(tactic| cs_prim) => `(tactic| exact tr_callTail _ _ _ _ _)
+macro_rules | `(tactic| cs_prim) => `(tactic| keeps_hyp)
 
 /-- decomposition of the part of a CALL / CALLNAME before the frame push: the call-site part of
     the invariant (`CsInv G (some p0)`) is carried as long as the actions keep it, and dropped
@@ -32,10 +32,10 @@ syntax "trk" : tactic
 set_option hygiene false in
 macro_rules | `(tactic| trk) => `(tactic|
   repeat (first
-    | with_reducible tr_prim
+    | with_reducible cs_prim
     | (refine CsTr.getIp_bind (fun _ h => h.1 _ rfl) ?_)
     | (refine CsTr.bind_keeps ?_ (fun _ h => CsInv.weaken h) ?_; (· ckeeps (CsInv G (some p0))))
-    | (refine CsTr.bind_then ?_ ?_; (· with_reducible tr_prim); (· (intro _; ckeeps (CsInv G none))))
+    | (refine CsTr.bind_then ?_ ?_; (· with_reducible cs_prim); (· (intro _; ckeeps (CsInv G none))))
     | (refine CsTr.of_keeps ?_ (fun _ h => CsInv.weaken h); (· ckeeps (CsInv G none)))
     | apply CsTr.ite
     | ((first | lift_lets | skip); intro jp__;
@@ -51,21 +51,21 @@ macro_rules | `(tactic| trk) => `(tactic|
 /-- `xOpCallCompiled`, every path: argument binding errors and the stack-overflow error return
     before any frame is touched, a self tail call reuses the current frame, the push stores
     `p0 + 2` in the caller's frame whose function has a CALL / CALLNAME opcode byte at `p0` -/
-theorem tr_callCompiled (p0 : Int) (fa : Addr) (na fl : Int) :
+theorem cstr_callCompiled (p0 : Int) (fa : Addr) (na fl : Int) :
     CsTr (CsInv G (some p0)) PA (callCompiled fa na fl) := by
   unfold callCompiled; trk
-macro_rules | `(tactic| tr_prim) => `(tactic| exact tr_callCompiled _ _ _ _)
+macro_rules | `(tactic| cs_prim) => `(tactic| exact cstr_callCompiled _ _ _ _)
 
-theorem tr_callAny (p0 : Int) (c : V) (na fl : Int) : CsTr (CsInv G (some p0)) PA (callAny c na fl) := by
+theorem cstr_callAny (p0 : Int) (c : V) (na fl : Int) : CsTr (CsInv G (some p0)) PA (callAny c na fl) := by
   unfold callAny; trk
-macro_rules | `(tactic| tr_prim) => `(tactic| exact tr_callAny _ _ _ _)
+macro_rules | `(tactic| cs_prim) => `(tactic| exact cstr_callAny _ _ _ _)
 
 /-- `OpCall` dispatched at `p0` -/
-theorem tr_execCall (p0 : Int) : CsTr (CsInv G (some p0)) PA execCall := by
+theorem cstr_execCall (p0 : Int) : CsTr (CsInv G (some p0)) PA execCall := by
   unfold execCall; trk
 
 /-- `OpCallName` dispatched at `p0` -/
-theorem tr_execCallName (p0 : Int) : CsTr (CsInv G (some p0)) PA execCallName := by
+theorem cstr_execCallName (p0 : Int) : CsTr (CsInv G (some p0)) PA execCallName := by
   unfold execCallName; trk
 
 /-! ### `dispatch` and `step` -/
@@ -87,18 +87,18 @@ theorem ck_dispatch_other (F : FloatOps) (op : Nat) (h1 : op ≠ OpCall) (h2 : o
     | exact absurd (eq_of_beq hc) h2)
 
 /-- `dispatch`: at a CALL / CALLNAME the call-site part of the invariant is needed in addition -/
-theorem tr_dispatch (F : FloatOps) (op : Nat) (p0 : Int) :
+theorem cstr_dispatch (F : FloatOps) (op : Nat) (p0 : Int) :
     CsTr (fun s => CsInv G none s ∧ ((op = OpCall ∨ op = OpCallName) → CsInv G (some p0) s)) PA (dispatch F op) := by
   apply CsTr.intro'; intro s hs
   obtain ⟨hA, hB⟩ := hs
   by_cases h1 : op = OpCall
   · subst h1
     have e : dispatch F OpCall = execCall := rfl
-    rw [e]; exact (tr_execCall p0).elim s (hB (Or.inl rfl))
+    rw [e]; exact (cstr_execCall p0).elim s (hB (Or.inl rfl))
   · by_cases h2 : op = OpCallName
     · subst h2
       have e : dispatch F OpCallName = execCallName := rfl
-      rw [e]; exact (tr_execCallName p0).elim s (hB (Or.inr rfl))
+      rw [e]; exact (cstr_execCallName p0).elim s (hB (Or.inr rfl))
     · exact (ck_dispatch_other F op h1 h2).elim s hA
 
 theorem cs_instAt_ok {i : Int} {op : Nat} {s s' : State} (h : exec (instAt i) s = (.ok op, s')) :
@@ -167,7 +167,7 @@ theorem step_inv (F : FloatOps) :
     rw [hy] at k2 k3
     cases r3 with
     | error x => exact k2
-    | ok u => exact (tr_dispatch F op (s.ip + 1)).elim s3 ⟨k2, k3⟩
+    | ok u => exact (cstr_dispatch F op (s.ip + 1)).elim s3 ⟨k2, k3⟩
 
 theorem CsInv.of_callSites {s : State} (h : CallSites G s) : CsInv G none s :=
   ⟨fun _ hp => (nomatch hp), fun _ => ⟨(callSites_iff G s).mp h, fun _ hp => (nomatch hp)⟩⟩
